@@ -93,6 +93,9 @@ type cacheWorld struct {
 
 var errSrc = errors.New("sim: source reader failed")
 
+// the instant at which every synctest bubble starts
+var simEpoch = time.Date(2000, 1, 1, 0, 0, 0, 0, time.UTC)
+
 type srcReader struct {
 	w      *cacheWorld
 	data   []byte
@@ -195,6 +198,24 @@ func (w *cacheWorld) readEntry(e *cev, ent *cache.Entry[CMeta], rchunk int, read
 	e.MetaObj1 = ent.Metadata.Object
 }
 
+// freshAtAccess (C03.a at the cache level): an entry reported fresh must not have been expired
+// already when the lookup first obtained a lock, i.e. before it could look at the entry at all. A
+// lookup that reads the clock, then queues behind a slow store on the same shard, and judges
+// freshness by the old reading reports entries as fresh that expired while it waited.
+func (w *cacheWorld) freshAtAccess(e *cev, stale bool, expires time.Time, what string) {
+	acq, ok := w.sim.FirstAcquire()
+	if !ok {
+		return
+	}
+	w.res.Evals++
+	if acq.After(e.CallT) {
+		w.res.probe("lookup_waited_while_time_passed")
+	}
+	if !stale && expires.Before(acq) {
+		w.res.violate("C03.a", "expired-entry-reported-fresh-after-waiting-for-its-lock", "%s(key %d) called at +%v obtained its first lock at +%v and reported the entry fresh although it had expired at +%v [%s]", what, e.Op.Key, e.CallT.Sub(simEpoch), acq.Sub(simEpoch), expires.Sub(simEpoch), fmt.Sprintf("%s shards=%d keys=%d", w.p.Backend, w.p.Shards, w.p.NKeys))
+	}
+}
+
 func (w *cacheWorld) exec(a, i int, op COp) {
 	switch op.Kind {
 	case "put":
@@ -221,8 +242,10 @@ func (w *cacheWorld) exec(a, i int, op COp) {
 				w.res.fault("disk_vanish")
 			}
 		}
+		w.sim.MarkOp()
 		ent, err := w.c.Get(w.key(op.Key))
 		if err == nil {
+			w.freshAtAccess(e, ent.Stale, ent.Metadata.Expires, "Get")
 			w.readEntry(e, ent, op.RChunk, op.ReadAt)
 		}
 		w.end(e, err)
@@ -236,8 +259,10 @@ func (w *cacheWorld) exec(a, i int, op COp) {
 		w.end(e, err)
 	case "meta":
 		e := w.begin(a, i, op)
+		w.sim.MarkOp()
 		m, stale, err := w.c.GetMetadata(w.key(op.Key))
 		if err == nil {
+			w.freshAtAccess(e, stale, m.Expires, "GetMetadata")
 			e.Found, e.Stale, e.MetaSize0, e.MetaObj0 = true, stale, m.Size, m.Object
 		}
 		w.end(e, err)
